@@ -1272,8 +1272,14 @@ End Target3.
 
 (** * The cache: several targets *)
 
-Definition cfeed (mf : mfeed) : list notif :=
-  match mf with MGroups gs => render_feed gs | MBag l => l end.
+Fixpoint cfeed (mf : mfeed) : list notif :=
+  match mf with
+  | MGroups gs => render_feed gs
+  | MBag l => l
+  | MSeq a b => cfeed a ++ cfeed b
+  end.
+
+Definition cstep (c : cache) (o : cop) : cache := fst (fst (mstep c o)).
 
 (** every target's tree is stood for by the replayed map; an absent target
     has no replayed entry *)
@@ -1284,11 +1290,12 @@ Definition CInv (c : cache) (m : rmap) : Prop :=
 
 (** the calls the statement admits: notifications whose units are good for the
     target they name; Add only of an absent target (KF-C03-4) *)
-Definition good_op (c : cache) (o : cop) : Prop :=
+Fixpoint good_op (c : cache) (o : cop) {struct o} : Prop :=
   match o with
   | OUpd _ n => good_notif (feed_target n) n
   | OAdd t => t <> "" /\ assoc t (c_targets c) = None
   | ORemove _ t => t <> ""
+  | OPair a b => good_op c a /\ good_op (cstep c a) b
   | _ => True
   end.
 
@@ -1413,7 +1420,16 @@ Theorem cache_step_inv c m o c' r mf :
   CInv c m -> good_op c o -> mstep c o = (c', r, mf) -> r <> RPanic ->
   CInv c' (fold_left feed_apply (cfeed mf) m).
 Proof.
-  intros Hc Hg. destruct o as [now n|now tgt|now tgt|tgt|now tgt|now tgt|now tgt msg|now|]; cbn [mstep good_op] in *.
+  revert c m c' r mf.
+  induction o as [now n|now tgt|now tgt|tgt|now tgt|now tgt|now tgt msg|now| |a IHa b IHb];
+    intros c m c' r mf Hc Hg; cbn [mstep good_op] in *.
+  10:{ (* a pair is its two calls in sequence *)
+       destruct Hg as [Hga Hgb]. unfold cstep in Hgb.
+       destruct (mstep c a) as [[c1 r1] f1] eqn:Ea. destruct (mstep c1 b) as [[c2 r2] f2] eqn:Eb.
+       cbn [fst] in Hgb. intros E Hnp; inversion E; subst; clear E. cbn [cfeed]. rewrite fold_left_app.
+       assert (H1 : r1 <> RPanic) by (intros ->; apply Hnp; reflexivity).
+       assert (H2 : r2 <> RPanic) by (intros ->; apply Hnp; destruct r1; reflexivity).
+       exact (IHb _ _ _ _ _ (IHa _ _ _ _ _ Hc Hga Ea H1) Hgb Eb H2). }
   9:{ intros E _; inversion E; subst. exact Hc. }
   - (* GnmiUpdate *)
     unfold cache_gnmi_update. destruct (n_prefix n) as [pr|] eqn:Hp.
@@ -1531,8 +1547,6 @@ Proof.
 Qed.
 
 (** ** histories of calls on the cache *)
-
-Definition cstep (c : cache) (o : cop) : cache := fst (fst (mstep c o)).
 
 Definition crun (c : cache) (ops : list cop) : cache := fold_left cstep ops c.
 
@@ -1757,4 +1771,197 @@ Proof.
   split; [|split; [reflexivity|split; [vm_compute; repeat (constructor; try (intro HH; discriminate HH))|split; [vm_compute; repeat (constructor; try (intro HH; discriminate HH))|]]]].
   - unfold wit_seq_t. apply (tstep_spec (new_target "t" wit_seq_cfg) (0, wit_upd 1 ["a"] None "c" 1) I). cbv. exact I.
   - vm_compute. discriminate.
+Qed.
+
+(** * Two writers of one target
+
+    Since /repo b865e5c every writer entry point (GnmiUpdate, Reset, Sync,
+    Connect, ConnectError, UpdateMetadata) holds the target's write lock across
+    [decide; write the tree; announce].  A small transition system: two writers,
+    each [acquire; decide (read the state, compute the call's outcome);
+    commit (write the outcome, append what is announced); release], over ANY
+    sequential semantics [f] of a call (in particular [mstep]).  With the lock
+    every schedule ends in the state and feed of one of the two sequential
+    orders; without it the decision can be stale at commit time
+    ([unlocked_lost_update]: the interleaving of C02/seed_ua). *)
+Section TwoWriters.
+Context {S F O : Type}.
+Variable f : S -> O -> S * list F.      (* one call: new state, what it announces *)
+Variable op : bool -> O.                (* the call of writer [true] / [false] *)
+Variable s0 : S.
+Variable locked : bool.                 (* does the critical section take the lock *)
+
+Record wst := W { w_pc : nat; w_loc : option (S * list F) }.
+Record tst := T { sh : S; fd : list F; lk : option bool; wt : wst; wf : wst; ord : list bool }.
+
+Definition wr (st : tst) (i : bool) : wst := if i then wt st else wf st.
+Definition set_wr (st : tst) (i : bool) (w : wst) : tst :=
+  if i then T (sh st) (fd st) (lk st) w (wf st) (ord st) else T (sh st) (fd st) (lk st) (wt st) w (ord st).
+
+Definition tinit : tst := T s0 [] None (W 0 None) (W 0 None) [].
+
+Definition tstep2 (st : tst) (i : bool) : option tst :=
+  let w := wr st i in
+  match w_pc w with
+  | 0%nat =>
+      if locked then
+        match lk st with
+        | None => Some (set_wr (T (sh st) (fd st) (Some i) (wt st) (wf st) (ord st)) i (W 1 None))
+        | Some _ => None                                    (* blocked *)
+        end
+      else Some (set_wr st i (W 1 None))
+  | 1%nat => Some (set_wr st i (W 2 (Some (f (sh st) (op i)))))          (* decide *)
+  | 2%nat =>
+      match w_loc w with
+      | Some (s', a) =>                                                   (* commit what was decided *)
+          Some (set_wr (T s' (fd st ++ a) (lk st) (wt st) (wf st) (ord st ++ [i])) i (W 3 None))
+      | None => None
+      end
+  | 3%nat =>
+      Some (set_wr (T (sh st) (fd st) (if locked then None else lk st) (wt st) (wf st) (ord st)) i (W 4 None))
+  | _ => None
+  end.
+
+Fixpoint trun2 (sched : list bool) (st : tst) : option tst :=
+  match sched with
+  | [] => Some st
+  | i :: sched' => match tstep2 st i with Some st' => trun2 sched' st' | None => None end
+  end.
+
+(** the calls of [order], one after the other *)
+Definition seqrun (order : list bool) : S * list F :=
+  fold_left (fun sa i => let '(s', a) := f (fst sa) (op i) in (s', snd sa ++ a)) order (s0, []).
+
+Definition in_cs (w : wst) : Prop := (1 <= w_pc w <= 3)%nat.
+
+Definition TInv (st : tst) : Prop :=
+  (sh st, fd st) = seqrun (ord st) /\ NoDup (ord st) /\
+  forall i, let w := wr st i in
+    (in_cs w <-> lk st = Some i) /\
+    (In i (ord st) <-> (3 <= w_pc w)%nat) /\
+    (w_pc w = 2%nat -> w_loc w = Some (f (sh st) (op i))) /\
+    (w_pc w <= 4)%nat.
+
+Lemma seqrun_snoc order i :
+  seqrun (order ++ [i]) =
+  let '(s', a) := f (fst (seqrun order)) (op i) in (s', snd (seqrun order) ++ a).
+Proof. unfold seqrun. now rewrite fold_left_app. Qed.
+
+Lemma wr_set_same st i w : wr (set_wr st i w) i = w.
+Proof. destruct i; reflexivity. Qed.
+Lemma wr_set_other st i w : wr (set_wr st i w) (negb i) = wr st (negb i).
+Proof. destruct i; reflexivity. Qed.
+
+Ltac tw_fin :=
+  repeat split; intros; try lia; try discriminate; try congruence; try tauto;
+  intuition (try lia; try discriminate; try congruence).
+
+Lemma tstep2_inv st i st' : locked = true -> TInv st -> tstep2 st i = Some st' -> TInv st'.
+Proof.
+  intros Hl (Hseq & Hnd & Hw) E. unfold tstep2 in E. rewrite Hl in E.
+  pose proof (Hw true) as (Ht1 & Ht2 & Ht3 & Ht4). pose proof (Hw false) as (Hf1 & Hf2 & Hf3 & Hf4). clear Hw.
+  unfold TInv, in_cs in *. cbv zeta in *.
+  destruct st as [s fd0 l [pt lt] [pf lf] o]. cbn [wr wt wf sh fd lk ord w_pc w_loc] in *.
+  destruct i; cbn [wr set_wr wt wf sh fd lk ord w_pc w_loc] in E.
+  - destruct pt as [|[|[|[|k]]]].
+    + destruct l; [discriminate|]. inversion E; subst st'; clear E. cbn.
+      split; [exact Hseq|]. split; [exact Hnd|]. intros [|]; cbn; tw_fin.
+    + inversion E; subst st'; clear E. cbn.
+      assert (Hlk : l = Some true) by (apply Ht1; lia).
+      split; [exact Hseq|]. split; [exact Hnd|]. intros [|]; cbn; tw_fin.
+    + rewrite (Ht3 eq_refl) in E. destruct (f s (op true)) as [s' a] eqn:Ef.
+      inversion E; subst st'; clear E. cbn [wr set_wr wt wf sh fd lk ord w_pc w_loc].
+      assert (Hni : ~ In true o) by (intros H; apply Ht2 in H; lia).
+      assert (Hlk : l = Some true) by (apply Ht1; lia).
+      split; [rewrite seqrun_snoc, <- Hseq; cbn [fst snd]; now rewrite Ef|].
+      split; [apply NoDup_app_intro_single; assumption|].
+      intros [|]; cbn [wr set_wr wt wf sh fd lk ord w_pc w_loc]; rewrite ?in_app_iff; cbn [In].
+      * tw_fin.
+      * split; [exact Hf1|]. split; [|split; [|exact Hf4]].
+        -- split; [intros [H|[H|[]]]; [now apply Hf2|discriminate]|intros H; left; now apply Hf2].
+        -- intros H2. exfalso. assert (l = Some false) by (apply Hf1; lia). congruence.
+    + inversion E; subst st'; clear E. cbn.
+      assert (Hlk : l = Some true) by (apply Ht1; lia).
+      split; [exact Hseq|]. split; [exact Hnd|]. intros [|]; cbn; tw_fin.
+    + discriminate.
+  - destruct pf as [|[|[|[|k]]]].
+    + destruct l; [discriminate|]. inversion E; subst st'; clear E. cbn.
+      split; [exact Hseq|]. split; [exact Hnd|]. intros [|]; cbn; tw_fin.
+    + inversion E; subst st'; clear E. cbn.
+      assert (Hlk : l = Some false) by (apply Hf1; lia).
+      split; [exact Hseq|]. split; [exact Hnd|]. intros [|]; cbn; tw_fin.
+    + rewrite (Hf3 eq_refl) in E. destruct (f s (op false)) as [s' a] eqn:Ef.
+      inversion E; subst st'; clear E. cbn [wr set_wr wt wf sh fd lk ord w_pc w_loc].
+      assert (Hni : ~ In false o) by (intros H; apply Hf2 in H; lia).
+      assert (Hlk : l = Some false) by (apply Hf1; lia).
+      split; [rewrite seqrun_snoc, <- Hseq; cbn [fst snd]; now rewrite Ef|].
+      split; [apply NoDup_app_intro_single; assumption|].
+      intros [|]; cbn [wr set_wr wt wf sh fd lk ord w_pc w_loc]; rewrite ?in_app_iff; cbn [In].
+      * split; [exact Ht1|]. split; [|split; [|exact Ht4]].
+        -- split; [intros [H|[H|[]]]; [now apply Ht2|discriminate]|intros H; left; now apply Ht2].
+        -- intros H2. exfalso. assert (l = Some true) by (apply Ht1; lia). congruence.
+      * tw_fin.
+    + inversion E; subst st'; clear E. cbn.
+      assert (Hlk : l = Some false) by (apply Hf1; lia).
+      split; [exact Hseq|]. split; [exact Hnd|]. intros [|]; cbn; tw_fin.
+    + discriminate.
+Qed.
+
+Lemma tinit_inv : TInv tinit.
+Proof.
+  split; [reflexivity|]. split; [constructor|]. intros i. destruct i; cbn; unfold in_cs; cbn;
+    repeat split; try lia; try discriminate; try tauto.
+Qed.
+
+(** with the lock, every schedule is one of the two sequential orders: at any
+    point state and feed are those of the calls committed so far, in commit
+    order; when both writers are done that order is one of the two *)
+Theorem locked_writers_serialise sched st :
+  locked = true -> trun2 sched tinit = Some st ->
+  (sh st, fd st) = seqrun (ord st) /\
+  (w_pc (wt st) = 4%nat -> w_pc (wf st) = 4%nat -> ord st = [true; false] \/ ord st = [false; true]).
+Proof.
+  intros Hl. assert (H : forall sched st0, TInv st0 -> trun2 sched st0 = Some st -> TInv st).
+  { clear sched. induction sched as [|i sched IH]; intros st0 Hi E; cbn in E; [now inversion E; subst|].
+    destruct (tstep2 st0 i) as [st1|] eqn:E1; [|discriminate]. eapply IH; [|exact E]. eapply tstep2_inv; eauto. }
+  intros E. destruct (H _ _ tinit_inv E) as (Hseq & Hnd & Hw). split; [exact Hseq|].
+  intros H1 H2. pose proof (Hw true) as (_ & Ht & _). pose proof (Hw false) as (_ & Hf & _). cbn in Ht, Hf.
+  assert (It : In true (ord st)) by (apply Ht; lia). assert (If : In false (ord st)) by (apply Hf; lia).
+  clear -Hnd It If. destruct (ord st) as [|a [|b [|c l]]].
+  - destruct It.
+  - cbn in It, If. destruct a; intuition discriminate.
+  - cbn in It, If. destruct a, b; auto; exfalso; intuition discriminate.
+  - exfalso. inversion Hnd as [|? ? Ha Hnd1]; subst. inversion Hnd1 as [|? ? Hb Hnd2]; subst.
+    inversion Hnd2 as [|? ? Hc _]; subst. cbn in Ha, Hb. destruct a, b, c; tauto.
+Qed.
+
+End TwoWriters.
+
+(** instance: two calls on the cache, [mstep] as the sequential semantics *)
+Corollary cache_writers_serialise (c0 : cache) (a b : cop) sched st :
+  trun2 (fun c o => let '(c', _, mf) := mstep c o in (c', cfeed mf)) (fun i : bool => if i then a else b) true
+        sched (tinit c0) = Some st ->
+  w_pc (wt st) = 4%nat -> w_pc (wf st) = 4%nat ->
+  let g := fun c o => let '(c', _, mf) := mstep c o in (c', cfeed mf) in
+  (sh st, fd st) = seqrun g (fun i : bool => if i then a else b) c0 [true; false] \/
+  (sh st, fd st) = seqrun g (fun i : bool => if i then a else b) c0 [false; true].
+Proof.
+  intros E H1 H2. cbv zeta.
+  destruct (locked_writers_serialise _ _ c0 true sched st eq_refl E) as (Hs & Ho).
+  destruct (Ho H1 H2) as [Hord|Hord]; rewrite Hord in Hs; [left|right]; exact Hs.
+Qed.
+
+(** without the lock the decision can be stale when it is committed: the
+    "newest timestamp wins" call semantics, stored 50, writers 100 and 200 *)
+Lemma unlocked_lost_update :
+  let f := fun (s v : Z) => if Z.ltb s v then (v, [v]) else (s, []) in
+  let op := fun i : bool => if i then 100 else 200 in
+  exists sched st,
+    trun2 f op false sched (tinit 50) = Some st /\
+    w_pc (wt st) = 4%nat /\ w_pc (wf st) = 4%nat /\
+    (sh st, fd st) <> seqrun f op 50 [true; false] /\
+    (sh st, fd st) <> seqrun f op 50 [false; true] /\ sh st = 100.
+Proof.
+  exists [true; true; false; false; false; false; true; true]. eexists. split; [vm_compute; reflexivity|].
+  vm_compute. repeat split; try discriminate; intros H; discriminate H.
 Qed.
